@@ -2,6 +2,8 @@ package util
 
 import (
 	"net/http"
+	"net/url"
+	"strings"
 
 	middlewareapi "github.com/oauth2-proxy/oauth2-proxy/v7/pkg/apis/middleware"
 )
@@ -39,6 +41,19 @@ func GetRequestURI(req *http.Request) string {
 	if !IsProxied(req) || uri == "" {
 		// Use RequestURI to preserve ?query
 		uri = req.URL.RequestURI()
+	}
+	return uri
+}
+
+// GetRequestPath returns the path of the request URI (or of X-Forwarded-Uri
+// if present and the request is proxied) without the query string.
+func GetRequestPath(req *http.Request) string {
+	uri := GetRequestURI(req)
+	if parsed, err := url.ParseRequestURI(uri); err == nil {
+		return parsed.Path
+	}
+	if idx := strings.IndexAny(uri, "?#"); idx != -1 {
+		return uri[:idx]
 	}
 	return uri
 }
